@@ -43,8 +43,12 @@ def _initial_sheet(r):
     if r.random() < 0.3:
         parts.append('@charset "utf-8";')
     if r.random() < 0.5:
-        parts.append('@import "a.css" print;')
+        parts.append(r.choice(['@import "a.css" print;', '@import "a.css" print;', '@import "a.css" all;', '@import "a.css";', '@import "a.css" tv, print;']))
     if r.random() < 0.6:
+        k = r.random()
+        if k < 0.35:
+            # further declarations no selector uses (they can be superseded, the ones below cannot)
+            parts.append(r.choice(['@namespace a "u2";', '@namespace a "u2"; @namespace b "u3";', '@namespace q "u9";']))
         parts.append(NS_DECL)
     for _ in range(r.randrange(1, 5)):
         parts.append(G.rule(r, r.choice(["style", "style", "media", "page", "fontface", "comment", "unknown", "variables"])))
@@ -77,7 +81,7 @@ class World:
 
     def snapshot(self, extra=None):
         s = self.sheet
-        snap = [P.p_sheet(s), _text(lambda: s.cssText), tuple(sorted(s.namespaces.items()))]
+        snap = [P.p_sheet(s), _text(lambda: s.cssText), tuple(sorted(s.namespaces.items())), tuple(sorted((n, s.variables[n]) for n in s.variables.keys()))]
         if extra is not None:
             snap.append(extra())
         return snap
@@ -138,6 +142,9 @@ class World:
             k, v = lib.call(obj.namespaces.__setitem__, a[0], a[1])
         elif m == "ns_del":
             k, v = lib.call(obj.namespaces.__delitem__, a[0])
+        elif m == "insert_ns_object":
+            rule = self.cu.css.CSSNamespaceRule(namespaceURI=a[1], prefix=a[0])
+            k, v = lib.call(obj.insertRule, rule, a[2] % (len(obj.cssRules) + 2))
         elif m == "setitem":
             k, v = lib.call(obj.__setitem__, a[0] % (len(obj) + 1) if isinstance(a[0], int) else a[0], a[1])
         elif m == "delitem":
@@ -169,7 +176,7 @@ class World:
             self.stats["probe:abort_" + where] += 1
         after = self.snapshot(extra)
         if before != after:
-            diff = "sheet projection" if before[0] != after[0] else "sheet cssText" if before[1] != after[1] else "namespaces" if before[2] != after[2] else "owning rule / target"
+            diff = "sheet projection" if before[0] != after[0] else "sheet cssText" if before[1] != after[1] else "namespaces" if before[2] != after[2] else "sheet variables" if before[3] != after[3] else "owning rule / target"
             raise Viol("rejected_changes_nothing", name, f"{name}({', '.join(repr(x)[:120] for x in a)}) raised {lib.ename(v)} but changed the {diff}: before={_first_diff(before, after)}")
         return "rejected:" + lib.ename(v)
 
@@ -268,7 +275,7 @@ BAD_NESTED = ["@media print { a { color: red } b { left: ;;( } c {", "@media pri
 
 
 def good_rule(r):
-    return G.rule(r, r.choice(["style", "style", "media", "page", "comment", "fontface"]))
+    return G.rule(r, r.choice(["style", "style", "media", "page", "comment", "fontface", "variables", "unknown"]))
 
 
 def bad_rule(r):
@@ -303,7 +310,7 @@ def gen_op(r, w, i):
         return {"op": "readonly", "cls": cls, "m": m, "a": a}
     abort = r.random() < cfg["abort_rate"]
     choice = r.choice(
-        ["sheet.cssText", "sheet.insertRule", "sheet.add", "sheet.deleteRule", "sheet.encoding", "sheet.ns_set", "sheet.ns_del", "rule.cssText", "rule.cssText", "style.cssText", "style.setProperty", "property", "value.cssText", "selectorlist", "selector.selectorText", "stylerule.selectorText", "media.mediaText", "media.append", "media.delete", "mediaquery", "mediarule.insertRule", "mediarule.deleteRule", "mediarule.add", "import", "namespace", "page", "charset", "variables"]
+        ["sheet.cssText", "sheet.insertRule", "sheet.add", "sheet.deleteRule", "sheet.encoding", "sheet.ns_set", "sheet.ns_del", "sheet.ns_object", "rule.cssText", "rule.cssText", "style.cssText", "style.setProperty", "property", "value.cssText", "selectorlist", "selector.selectorText", "stylerule.selectorText", "media.mediaText", "media.append", "media.delete", "mediaquery", "mediarule.insertRule", "mediarule.deleteRule", "mediarule.add", "import", "namespace", "page", "charset", "variables"]
     )
     i_, j_ = r.randrange(0, 8), r.randrange(0, 6)
     if choice == "sheet.cssText":
@@ -321,6 +328,8 @@ def gen_op(r, w, i):
         return {"op": "mut", "t": "sheet", "m": "set:encoding", "a": [r.choice(["utf-8", "ascii", "iso-8859-1", "x-unknown-codec", "", None]) if not abort else r.choice(["x-unknown-codec", "not a codec", "css"])]}
     if choice == "sheet.ns_set":
         return {"op": "mut", "t": "sheet", "m": "ns_set", "a": [r.choice(["p", "q", "", "r"]), r.choice(["u0", "u1", "u2", "u9"])]}
+    if choice == "sheet.ns_object":
+        return {"op": "mut", "t": "sheet", "m": "insert_ns_object", "a": [r.choice(["p", "q", "", "a", "b"]), r.choice(["u0", "u1", "u2", "u3", "u9"]), r.randrange(0, 9)]}
     if choice == "sheet.ns_del":
         return {"op": "mut", "t": "sheet", "m": "ns_del", "a": [r.choice(["p", "q", "", "zz"])]}
     if choice == "rule.cssText":
@@ -374,7 +383,9 @@ def gen_op(r, w, i):
         a, where = parts_with_abort(r, G.selector, lambda r: r.choice(["a >", "1a", "a[", "un|d", ":not(", ""]), abort, ", ")
         return {"op": "mut", "t": "rule", "kind": "STYLE_RULE", "i": i_, "m": "set:selectorText", "a": [a], "abort": where}
     if choice == "media.mediaText":
-        a, where = parts_with_abort(r, G.media_query, lambda r: r.choice(["print and", "screen and (x", "3d", "(", "print screen", "tv and and (color)", ""]), abort, ", ")
+        a, where = parts_with_abort(r, G.media_query, lambda r: r.choice(["print and", "screen and (x", "3d", "(", "print screen", "tv and and (color)", "", "/*x*/", "/*x*/ 3d", "print /*c*/ and"]), abort, ", ")
+        if abort and r.random() < 0.3:
+            a, where = r.choice(["/*x*/", "/*x*/ /*y*/", " ", "/**/,"]), "immediately"  # parses, but holds no medium
         return {"op": "mut", "t": "media", "kind": r.choice(["MEDIA_RULE", "IMPORT_RULE"]), "i": i_, "m": "set:mediaText", "a": [a], "abort": where}
     if choice == "media.append":
         return {"op": "mut", "t": "media", "kind": r.choice(["MEDIA_RULE", "IMPORT_RULE"]), "i": i_, "m": "appendMedium", "a": [r.choice(["3d", "print and", "(", "print, tv"]) if abort else G.media_query(r)], "abort": "immediately" if abort else None}
